@@ -1,4 +1,4 @@
-import vlib, vtmf_common, tracecheck
+import vlib, vtmf_common, tracecheck, shuffle_common
 PID = "C03"
 EVS = "VMask,VPriv,VSec,UpdKey,CC".split(",")
 def run(tier, seed):
@@ -9,6 +9,7 @@ def run(tier, seed):
             return "%s:%s:%s:%s:%s:%s" % (e["e"], e.get("mut"), e.get("pub"), e.get("mode"), e.get("res"), str(e.get("msg") or e.get("bits"))[:60])
         return None
     vtmf_common.record_and_validate(ck, PID, "c03", 300 if tier == "quick" else 5000, seed, interesting)
+    shuffle_common.run(ck, PID, tier, seed, lambda c: c["expect"] == "accept")
     ck.cov["rule"] = "MC_VTMF_sigma exhaustive in p=23,q=11; recorded random executions validated by VTMFTrace; a case is a distinct (execution, operation, mutation, verdict, transcript) tuple of the kinds " + ",".join(EVS)
     return ck.finish()
 def replay(path, seed):
